@@ -146,9 +146,11 @@ def make_values(flow, dim, nested):
     return vals
 
 
-def arg_var(dim):
+def arg_var(dim, typed=False):
     import lena.variables
     if dim == 1:
+        if typed:
+            return lena.variables.Variable("x", lambda data: data[1], unit="cm", type="coordinate")
         return lena.variables.Variable("x", lambda data: data[1], unit="cm")
     return lena.variables.Variable("xy", lambda data: data[1], dim=dim)
 
